@@ -400,6 +400,37 @@ fn main() {
                     Err(_) => format!("ERR-CHANGED count {}->{} bytes {}->{}", before.0, after.0, hex(&before.1), hex(&after.1)),
                 }
             }
+            // emptyval <native type name|Collection|Vector|UserDefinedType|Tuple>: bind the special empty value through both public carriers
+            "emptyval" => {
+                use scylla_cql_core::frame::response::result::{CollectionType, UserDefinedType};
+                use scylla_cql_core::value::{CqlValue, MaybeEmpty};
+                let int = || ColumnType::Native(NativeType::Int);
+                let typ = match a[1] {
+                    "Collection" => ColumnType::Collection { frozen: false, typ: CollectionType::List(Box::new(int())) },
+                    "Vector" => ColumnType::Vector { typ: Box::new(int()), dimensions: 2 },
+                    "Tuple" => ColumnType::Tuple(vec![int()]),
+                    "UserDefinedType" => ColumnType::UserDefinedType { frozen: false, definition: std::sync::Arc::new(UserDefinedType {
+                        name: "t".into(), keyspace: "k".into(), field_types: vec![(Cow::Borrowed("a"), int())] }) },
+                    n => ColumnType::Native(match n {
+                        "Ascii" => NativeType::Ascii, "Boolean" => NativeType::Boolean, "Blob" => NativeType::Blob, "Counter" => NativeType::Counter,
+                        "Date" => NativeType::Date, "Decimal" => NativeType::Decimal, "Double" => NativeType::Double, "Duration" => NativeType::Duration,
+                        "Float" => NativeType::Float, "Int" => NativeType::Int, "BigInt" => NativeType::BigInt, "Text" => NativeType::Text,
+                        "Timestamp" => NativeType::Timestamp, "Inet" => NativeType::Inet, "SmallInt" => NativeType::SmallInt, "TinyInt" => NativeType::TinyInt,
+                        "Time" => NativeType::Time, "Timeuuid" => NativeType::Timeuuid, "Uuid" => NativeType::Uuid, "Varint" => NativeType::Varint,
+                        _ => return "ERR unknown type".to_string(),
+                    }),
+                };
+                let verdict = |r: Result<(), scylla_cql_core::serialize::SerializationError>, sv: &SerializedValues| {
+                    let mut b = Vec::new(); sv.write_to_request(&mut b);
+                    match r { Ok(()) if b == [0, 1, 0, 0, 0, 0] => "ACCEPTED".to_string(), Ok(()) => format!("ACCEPTED-BUT-WROTE-{}", hex(&b)),
+                              Err(_) if b == [0, 0] => "REFUSED".to_string(), Err(_) => format!("REFUSED-BUT-WROTE-{}", hex(&b)) }
+                };
+                let mut s1 = SerializedValues::new();
+                let r1 = s1.add_value(&MaybeEmpty::<i32>::Empty, &typ);
+                let mut s2 = SerializedValues::new();
+                let r2 = s2.add_value(&CqlValue::Empty, &typ);
+                format!("maybe_empty={} cql_value={}", verdict(r1, &s1), verdict(r2, &s2))
+            }
             // errbody <negotiated rate-limit error code|-> <body hex|->: Error::deserialize of an ERROR body, rendered canonically (texts as written, ids in hex)
             "errbody" => {
                 use scylla_cql_core::frame::protocol_features::ProtocolFeatures;
